@@ -143,9 +143,11 @@ struct DnsCacheKey
   static DnsCacheKey fromQuestion(const DnsQuestion &question)
   {
     DnsCacheKey key;
-    // Convert to lowercase for case-insensitive comparison
+    // Case-insensitive comparison: DNS folds ASCII letters only (RFC 4343), independent of the process locale
+    // (::tolower on a char >= 0x80 is undefined, and e.g. an 8-bit Turkish locale maps 0xDD to 'i').
     key.qname = question.qname;
-    std::transform(key.qname.begin(), key.qname.end(), key.qname.begin(), ::tolower);
+    std::transform(key.qname.begin(), key.qname.end(), key.qname.begin(),
+                   [](char c) { return (c >= 'A' && c <= 'Z') ? static_cast<char>(c - 'A' + 'a') : c; });
     key.qtype = question.qtype;
     key.qclass = question.qclass;
     return key;
